@@ -173,6 +173,30 @@ def upgradeFirstNodeWith (checked : Bool) (n : Nat) : Res Unit Unit :=
 
 def upgradeFirstNode (n : Nat) : Res Unit Unit := upgradeFirstNodeWith upgradeFirstNodeChecked n
 
+/-- `get_services_for_ops`: every index pushed is `nodes.iter().position(p)` for some predicate `p` (service name / peer id
+and "not removed"); with no names given a service without a match is skipped (`skipMissing`), with names it is an error -/
+def servicesForOps {α : Type} (nodes : List α) (skipMissing : Bool) : List (α → Bool) → Option (List Nat)
+  | [] => some []
+  | p :: rest =>
+    match nodes.findIdx? p, servicesForOps nodes skipMissing rest with
+    | _, none => none
+    | some i, some is => some (i :: is)
+    | none, some is => if skipMissing then some is else none
+
+/-- `for &index in &service_indices { let node = &mut node_registry.nodes[index]; … }` -/
+def upgradeIndexSites (len : Nat) : List Nat → Except Panic Unit
+  | [] => .ok ()
+  | i :: rest => if i < len then upgradeIndexSites len rest else .error .sliceIndex
+
+/-- `upgrade` after the `debug!`: the services selected, then one `nodes[index]` per selected service -/
+def upgradeSelect {α : Type} (nodes : List α) (skipMissing : Bool) (preds : List (α → Bool)) : Res Unit Unit :=
+  match servicesForOps nodes skipMissing preds with
+  | none => .err ()
+  | some idxs =>
+    match upgradeIndexSites nodes.length idxs with
+    | .error p => .panic p
+    | .ok _ => .ok ()
+
 /-! ### `LogOutputDest`: `Display` next to `parse_from_str` (the round-trip clause) -/
 
 inductive LogDest
